@@ -48,7 +48,7 @@ inductive Job
   | args (xs : List Node) (acc : List Loc)
   | whileL (c b : Node)
   | forL (c st b : Node)
-  | cforL (iObj : Nat) (hi : Int) (b : Node)           -- the counting loop over its counter OBJECT (`int &i = *loop_var`)
+  | cforL (il : Loc) (hi : Int) (b : Node)             -- the counting loop over its counter's Data record
   | callFn (fid : Nat) (caps : List (Name × Loc)) (args : List Loc)
   | guardFn (fid : Nat) (args : List Loc)                                  -- evaluate the guard of a def with the call's arguments
   | dispatch (cands : List Nat) (args : List Loc)                          -- try the overloads of a name in order
@@ -203,13 +203,16 @@ def run (ρ : List FunDef) : Nat → Job → St → R
         | (.val _, s2) => afterBody s2
         | (.cont, s2) => afterBody s2
         | r => r)
-  | f + 1, .cforL iObj hi b, s =>
-    match s.objAt iObj with
+  | f + 1, .cforL il hi b, s =>
+    -- the compiled counting loop (fix: it tests and steps the counter through its Data record `il`, as `i < hi` and `++i` would)
+    match s.val il with
     | .int i =>
       if i < hi then
         let next (s2 : St) : R :=
-          match s2.objAt iObj with
-          | .int j => run ρ f (.cforL iObj hi b) (s2.setObj iObj (.int (j + 1)))
+          match s2.val il with
+          | .int j =>
+            if (s2.cell il).const then (.thrown (.evalErr .assignConst), s2)
+            else run ρ f (.cforL il hi b) (s2.setVal il (.int (j + 1)))
           | _ => (.thrown (.evalErr .other), s2)
         match run ρ f (.node b) s with
         | (.val _, s2) => next s2
@@ -436,7 +439,7 @@ def run (ρ : List FunDef) : Nat → Job → St → R
         match s1.addObject x il with
         | none => (.thrown (.evalErr .redefined), s1)
         | some s2 =>
-          match run ρ f (.cforL s0.objs.length hi b) s2 with
+          match run ρ f (.cforL il hi b) s2 with
           | (.brk, s3) => allocVal s3 .void true
           | r => r) s
     | .brk => (.brk, s)
